@@ -4,16 +4,25 @@ C20 — no cross-document state: results do not depend on processing history.
 import PsdVerif.Model.Globals
 import PsdVerif.Generated.Globals
 import PsdVerif.Generated.Terms
+import PsdVerif.Model.Switches
+import PsdVerif.Generated.Switches
 import PsdVerif.Lemmas.Globals
 
 namespace PsdVerif.C20
-open PsdVerif PsdVerif.Globals
+open PsdVerif PsdVerif.Globals PsdVerif.Switches
 
 /-! ### The footprint of the current tree (regenerated from the AST on every run) -/
 
 /-- No module-level or class-level mutable object of src/psd_tools is both
 mutated by code that runs after import and read by such code. -/
 theorem current_tree_clean : ∀ c ∈ Generated.Globals.cells, c.clean = true := by decide
+
+/-- No code of src/psd_tools that runs after import leaves a process-wide switch of the standard
+library or of a third-party module (`attr.validators.set_disabled`, `logging.disable`,
+`warnings.simplefilter`, `np.seterr`, `sys.setrecursionlimit`, `os.environ[..] = ..`,
+`PIL.Image.MAX_IMAGE_PIXELS = ..`, a monkey-patched attribute of an imported module ...) changed:
+every such site of the current tree is import-time or scoped by a restoring context manager. -/
+theorem current_tree_switches_clean : ∀ s ∈ Generated.Switches.sites, s.clean = true := by decide
 
 /-- No `attr.ib(default=<mutable object>)`: freshly constructed structures share no default. -/
 theorem no_shared_defaults : Generated.Globals.sharedDefaults = [] := by decide
@@ -104,7 +113,39 @@ theorem noninterference_of_table (all : Op CellId Val Doc Out → Prop) (T : Cel
   have := hclean c
   simp [Cell.clean, hw', hr'] at this
 
+/-- The same statement over BOTH regenerated tables: a cell is either one of psd_tools' own
+(`S c = none`, described by the footprint table `T`) or a process-wide switch of a foreign module
+(`S c = some s`, described by a site of the switch table; foreign state is assumed to be read by
+anybody). Operations conform to the tables; every own cell and every switch site is clean. This is
+the shape `current_tree_clean` + `current_tree_switches_clean` instantiate. -/
+theorem noninterference_of_tables (all : Op CellId Val Doc Out → Prop) (T : CellId → Cell)
+    (S : CellId → Option Site)
+    (hconf : ∀ o c, all o →
+      (o.writes c → (S c = none ∧ (T c).writtenAtRuntime = true) ∨ (∃ s, S c = some s ∧ s.written = true)) ∧
+      (o.reads c → S c = none → (T c).readObservably = true))
+    (hclean : ∀ c, (T c).clean = true)
+    (hswitch : ∀ c s, S c = some s → s.clean = true)
+    (init : CellId → Val)
+    (h₁ h₂ : List (Op CellId Val Doc Out × Doc))
+    (hh₁ : ∀ p ∈ h₁, all p.1) (hh₂ : ∀ p ∈ h₂, all p.1)
+    (ops : List (Op CellId Val Doc Out)) (hops : ∀ o ∈ ops, all o) (d : Doc) :
+    (runOps ops (afterHistory h₁ init) d).2 = (runOps ops (afterHistory h₂ init) d).2 := by
+  apply noninterference all _ init h₁ h₂ hh₁ hh₂ ops hops d
+  intro o₁ o₂ c h1 h2 hw hr
+  rcases (hconf o₁ c h1).1 hw with ⟨hn, hw'⟩ | ⟨s, hs, hsw⟩
+  · have hr' := (hconf o₂ c h2).2 hr hn
+    have := hclean c
+    simp [Cell.clean, hw', hr'] at this
+  · have := hswitch c s hs
+    simp [Site.clean, hsw] at this
+
 end
+
+/-- non-vacuity of the switch vocabulary: a run-time, unscoped site (what `attr.validators.set_disabled(True)`
+inside a reader would be) is NOT clean; the same call as the `with` item of a restoring manager is. -/
+example : ({ site := "m:1", callee := "attr.validators.set_disabled", atRuntime := true, restored := false } : Site).clean = false := by decide
+example : ({ site := "m:1", callee := "numpy.errstate", atRuntime := true, restored := true } : Site).clean = true := by decide
+example : ({ site := "m:1", callee := "warnings.simplefilter", atRuntime := false, restored := false } : Site).clean = true := by decide
 
 /-! ### The descriptor key codec -/
 
